@@ -58,6 +58,15 @@ CLAIMED["C02"] = {
     "technique": "contracts on the real templates; forward-mode differentiation of the traced DAG + polynomial normal form (ODE characterisation); interval bound between branches; z3 for SAFE",
 }
 
+CLAIMED["C03"] = {
+    "text": "Proof over the reals that exp(log X) = X as a transformation for every valid X (both quaternion hemispheres, traced directly on symbolic "
+            "valid coefficients), log(exp t) = t for |angle| < pi, the antipodal coefficient vector has the same logarithm, the angle of log X is at most pi "
+            "and no denominator vanishes on any feasible path; Taylor branches within 64*eps*scale.",
+    "note": _REAL + "L-POLAR (reading log_exp/antipodal as statements on every valid element), A-TRIG quadrant facts, A-ATAN2, A-TAYLOR. "
+            "Not decided: floating point within 1e-6 of pi. Bundles covered element-wise by C11.",
+    "technique": "contracts on the real templates; per-path VCs by symbolic-scalar execution; polynomial normal form with atan2/sqrt/abs sign-case rules; z3 for angle range and SAFE",
+}
+
 NOT_APPLICABLE = {
     "C14": "quantifies over thread schedules; contract verification of one sequential call cannot express or decide data-race freedom (no thread model in any installed deductive back end for this C++ code) - see DESIGN.md section 5",
     "C19": "the oracle is the compiler's accept/reject verdict over a matrix of client programs, not a pre/postcondition of any function - see DESIGN.md section 5",
